@@ -92,9 +92,12 @@ func refEncode(d spzDesc) []byte {
 	return b.Bytes()
 }
 
+// gz: gzip at a level chosen by the stream length (default, stored blocks, fastest, Huffman only): the inflater hands
+// out its output in different portions for each
 func gz(raw []byte) []byte {
 	var b bytes.Buffer
-	w := gzip.NewWriter(&b)
+	level := []int{gzip.DefaultCompression, gzip.NoCompression, gzip.BestSpeed, gzip.HuffmanOnly}[len(raw)%4]
+	w, _ := gzip.NewWriterLevel(&b, level)
 	w.Write(raw)
 	w.Close()
 	return b.Bytes()
@@ -229,6 +232,9 @@ func spzSideChecks(zbytes []byte, refOK bool, dg string, ref *spz.Cloud) string 
 	}
 	if !refOK {
 		return ""
+	}
+	if f := retainCheck("spz.Read", ref.Mesh, dg); f != "" {
+		return f
 	}
 	var hdr *spz.Header
 	var herr error
